@@ -70,6 +70,7 @@ func emitDecodeIPv4(c *caseWriter, kind string, b []byte) {
 		c.add(1302, kind, len(b) >= 20, args(B(b)), resErr())
 	default:
 		c.add(1302, kind, true, args(B(b)), resOK(L{uint64(v.Identification), uint64(v.Flags), uint64(v.TTL), uint64(v.Protocol), uint64(v.Checksum), ipU32(v.Source), ipU32(v.Destination)}, B(v.Data)))
+		c.add(1316, kind+"/strict", true, args(B(b), L{1}, B(v.Data)), args(L{1}))
 	}
 }
 
@@ -84,6 +85,7 @@ func emitDecodeUDP(c *caseWriter, kind string, b []byte) {
 		c.add(1304, kind, len(b) >= 8, args(B(b)), resErr())
 	default:
 		c.add(1304, kind, true, args(B(b)), resOK(L{uint64(v.SrcPort), uint64(v.DstPort)}, B(v.Data)))
+		c.add(1315, kind+"/strict", true, args(B(b), L{1, uint64(v.SrcPort), uint64(v.DstPort)}, B(v.Data)), args(L{1}))
 	}
 }
 
@@ -264,6 +266,21 @@ func TestC13(t *testing.T) {
 		u := append([]byte{}, base[20:]...)
 		binary.BigEndian.PutUint16(u[4:], uint16(len(u)+d))
 		emitDecodeUDP(c, "udp-len-off", u)
+	}
+	// more bytes than a length field can count: the field agrees with the length modulo 65536 only
+	for _, extra := range []int{8, 9, 300, 65535} {
+		for _, wraps := range []int{1, 2} {
+			u := make([]byte, wraps*65536+extra)
+			copy(u, base[20:28])
+			binary.BigEndian.PutUint16(u[4:], uint16(extra))
+			emitDecodeUDP(c, "udp-len-wraps", u)
+			b := make([]byte, wraps*65536+20+extra)
+			copy(b, base[:20])
+			binary.BigEndian.PutUint16(b[2:], uint16(20+extra))
+			b[10], b[11] = 0, 0
+			binary.BigEndian.PutUint16(b[10:], ^wfold(wsum16(b[:20], 0)))
+			emitDecodeIPv4(c, "ip-tlen-wraps", b)
+		}
 	}
 	for i := 0; i < scale(1500, 30000); i++ {
 		n := r.Intn(80)
